@@ -11,6 +11,7 @@ import TickitModel.Core.Ticker
 import TickitModel.Core.Device
 import TickitModel.Core.Sched
 import TickitModel.Core.Sim
+import TickitModel.Core.SimCost
 import TickitModel.Core.Bus
 import TickitModel.Core.IoBox
 import TickitModel.Core.Command
@@ -25,6 +26,7 @@ import TickitModel.Core.NestedInt
 import TickitModel.Core.MasterLoop
 import TickitModel.Core.Http
 import TickitModel.Core.Epics
+import TickitModel.Core.StopProtocol
 
 open Lean Tickit
 
@@ -152,6 +154,22 @@ def opSim (j : Json) : Json :=
   let stims : List Stim := (jarr (jfield j "stims")).map (fun s => ⟨jint (jfield s "real"), jstr (jfield s "comp")⟩)
   let nTicks := jnat (jfield j "n_ticks")
   let fuel := 64
+  -- with "costs": the master loop with processing costs (Core/SimCost: the k-th tick takes costs[k] ns of real time,
+  -- stimuli that arrive during a tick are stamped relative to its start)
+  match jopt (jfield j "costs") with
+  | some cj =>
+    let cl := (jarr cj).map jnat
+    let cost : Nat → Nat := fun k => cl[k]?.getD 0
+    match masterInitialC S orc fuel sp cost t0 r0 stims with
+    | .error e => Json.mkObj [("err", simErrStr e), ("ticks", Json.arr #[]), ("obs", Json.arr #[])]
+    | .ok (m, tr, rest) =>
+      match masterRunC S orc fuel sp cost (4 * nTicks + 4 * stims.length + 8) nTicks m rest [tr] with
+      | .error e => Json.mkObj [("err", simErrStr e)]
+      | .ok (m', ticks) =>
+        Json.mkObj [("ticks", Json.arr (ticks.map outTick).toArray),
+                    ("obs", Json.arr (m'.sim.obs.map outObs).toArray),
+                    ("wake", outChanges ((m'.sim.sched "").wake))]
+  | none =>
   match masterInitial S orc fuel t0 r0 with
   | .error e => Json.mkObj [("err", simErrStr e), ("ticks", Json.arr #[]), ("obs", Json.arr #[])]
   | .ok (m, tr) =>
@@ -478,6 +496,40 @@ def opEpics (j : Json) : Json :=
   let hist := (jarr (jfield j "history")).map (fun e => match jarr e with | [c, s] => (jstr c, jint s) | _ => ("", 0))
   Json.arr ((Epics.run (jbool (jfield j "shared")) cfg (fun _ => 0) hist).map outEpicsEv).toArray
 
+/-! ### stop protocol (Core/StopProtocol): trace acceptor -/
+
+def jStopAct (j : Json) : Option StopAct :=
+  match jarr j with
+  | [k] => match jstr k with | "wakeup" => some .wakeup | "loop" => some .loop | _ => none
+  | [k, a] => match jstr k with
+    | "answer" => some (.answer (jstr a))
+    | "fail" => some (.fail (jstr a))
+    | "handler" => some (.handler (jnat a))
+    | "deliverStop" => some (.deliverStop (jstr a))
+    | _ => none
+  | [k, a, b] => match jstr k with
+    | "sleepExpires" => some (.sleepExpires ((jarr a).map jstr) (jbool b))
+    | "produceStop" => some (.produceStop (jnat a) (jstr b))
+    | _ => none
+  | _ => none
+
+/-- `{"op":"stopproto","comps":[..],"stopOnce":false,"actions":[..]}`: every action must be enabled in turn (strict
+execution); reports where the history is rejected, and for an accepted history whether the model's run call has
+returned / the run loop is parked waiting for a wakeup that nobody will send. -/
+def opStopProto (j : Json) : Json :=
+  let cfg : StopCfg := { comps := (jarr (jfield j "comps")).map jstr, stopOnce := jbool (jfield j "stopOnce") }
+  let acts := (jarr (jfield j "actions")).map jStopAct
+  let rec go (s : StopSt) (as : List (Option StopAct)) (k : Nat) : Json :=
+    match as with
+    | [] => Json.mkObj [("accepted", Json.bool true), ("returned", Json.bool (decide (s.runReturned cfg))),
+                        ("parked", Json.bool (decide (s.pc = .waiting ∧ s.newWakeup = false))),
+                        ("error", Json.bool s.error), ("reports", toJson s.reports.length)]
+    | none :: _ => Json.mkObj [("accepted", Json.bool false), ("at", toJson k), ("why", Json.str "unknown action")]
+    | some a :: rest => match s.step cfg a with
+      | some s' => go s' rest (k + 1)
+      | none => Json.mkObj [("accepted", Json.bool false), ("at", toJson k), ("why", Json.str "action not enabled")]
+  go (StopSt.init cfg) acts 0
+
 def handleLine (line : String) : String :=
   match Json.parse line with
   | .error e => (Json.mkObj [("err", "parse:" ++ e)]).compress
@@ -499,6 +551,7 @@ def handleLine (line : String) : String :=
       | "mloop" => opMLoop j
       | "failstop" => opFailStop j
       | "contract" => opContract j
+      | "stopproto" => opStopProto j
       | "http" => opHttp j
       | "epics" => opEpics j
       | "ping" => Json.str "pong"
